@@ -18,7 +18,7 @@ ASSUMPTIONS = [
     "refusal is a violation only when the databook was derived from a non-negative state AND determines it uniquely (full column rank); for under-determined systems the minimum-norm solution may be refused legitimately and such cases are only counted",
     "pre-flush state read from Model(...) before Model.process()",
 ]
-BUDGET = {"quick": 4000, "thorough": 32000}  # thorough = 8x quick: a depth that was run to completion, quiet, at seed 1 (deterministic given the seed)
+BUDGET = {"quick": 4000, "thorough": 16000}  # thorough = 4x quick: a depth that was run to completion, quiet, at seed 1 (deterministic given the seed)
 TIME_CAP = {"quick": 70, "thorough": 1500}
 PROFILE = {"p_indirect_junction": 0.0, "max_steps": 4, "min_steps": 1, "p_timed": 0.2, "p_junction": 0.4, "p_function": 0.1, "extreme": 0.1, "max_pops": 2, "p_transfer": 0.2, "characs": True, "p_output_pars": 0.0, "max_ord": 4}
 
